@@ -63,6 +63,7 @@ type app struct {
 type scenario struct {
 	V        int       `json:"v"`
 	MTU      int       `json:"mtu"`
+	MTUB     int       `json:"mtu_b"` // link MTU of host b when it differs (b then announces a smaller/larger MSS than a's MTU allows)
 	SACK     bool      `json:"sack"`
 	CC       string    `json:"cc"`
 	A        app       `json:"a"` // active opener
@@ -678,10 +679,14 @@ func runPair(sc scenario) []M {
 	if mtu == 0 {
 		mtu = 1500
 	}
-	mk := func(name, a4, a6 string) *wire.Host {
-		return wire.NewHost(clock, name, []wire.NICSpec{{ID: 1, MTU: mtu, Addr4: []string{a4}, Addr6: []string{a6}}})
+	mtuB := mtu
+	if sc.MTUB > 0 {
+		mtuB = uint32(sc.MTUB)
 	}
-	ha, hb := mk("a", "10.0.0.1", "fd00::1"), mk("b", "10.0.0.2", "fd00::2")
+	mk := func(name, a4, a6 string, m uint32) *wire.Host {
+		return wire.NewHost(clock, name, []wire.NICSpec{{ID: 1, MTU: m, Addr4: []string{a4}, Addr6: []string{a6}}})
+	}
+	ha, hb := mk("a", "10.0.0.1", "fd00::1", mtu), mk("b", "10.0.0.2", "fd00::2", mtuB)
 	for _, h := range []*wire.Host{ha, hb} {
 		h.S.SetTransportProtocolOption(tcp.ProtocolNumber, tcp.SACKEnabled(sc.SACK))
 		if sc.CC != "" {
@@ -712,7 +717,7 @@ func runPair(sc scenario) []M {
 	p.b.link.OnEmit = p.tap(p.b, p.a, 1)
 	go p.deliver(0, p.b, sc.A2B, sc.Seed*7+1)
 	go p.deliver(1, p.a, sc.B2A, sc.Seed*7+2)
-	rs := M{"ev": "reset", "tag": sc.Tag, "mtu": int(mtu), "v": sc.V, "sack": sc.SACK, "cc": sc.CC,
+	rs := M{"ev": "reset", "tag": sc.Tag, "mtu": int(mtu), "mtu_b": int(mtuB), "v": sc.V, "sack": sc.SACK, "cc": sc.CC,
 		"rcvbuf_a": sc.A.RcvBuf, "rcvbuf_b": sc.B.RcvBuf, "seed": int(sc.Seed), "sync": sc.Sync}
 	for k, v := range sc.Flags {
 		rs[k] = v
